@@ -1,7 +1,8 @@
 ------------------------------ MODULE ToGridRec ------------------------------
 (* code -> spec (C30): records of calls of the real TABresult.to_grid / get_data / find_grid and get_component, one TLC
    state per record.  Averages arrive as reduced fractions [num, den] (the harness verifies that the floating-point
-   value is such a fraction), k-points as integers on the mesh. *)
+   value is such a fraction), k-points as integers on the mesh.  Clauses named info_* are internal details that the
+   statement of C30 does not name: they are counted, they never decide. *)
 EXTENDS ToGrid, Json, IOUtils, TLCExt
 VARIABLE i
 Recs == JsonDeserialize(IOEnv.TRACE_FILE).recs
@@ -10,26 +11,37 @@ AsSeq(s) == TLCEval([k \in 1..Len(s) |-> s[k]])
 Seq2(s) == TLCEval([k \in 1..Len(s) |-> AsSeq(s[k])])
 RECURSIVE Tensor(_, _)
 Tensor(t, r) == IF r = 0 THEN t ELSE [k \in 1..3 |-> Tensor(t[k], r - 1)]
-SameAvg(a, b) == Len(a) = Len(b) /\ \A k \in 1..Len(a) : a[k][1] * b[k][2] = b[k][1] * a[k][2]
+(* averages as fractions; <<0, 0>> = a slot without value (NaN in the real result) *)
+SameAvg(a, b) == Len(a) = Len(b) /\ \A k \in 1..Len(a) : (a[k][2] = 0 <=> b[k][2] = 0) /\ a[k][1] * b[k][2] = b[k][1] * a[k][2]
 
+(* to_grid.  Rec.err = "missing" when the real call raised (Rec.raised, any exception class) or returned NaN; in the
+   second case the NaN must sit in exactly the slots without image and the other slots carry their own values. *)
 ToGridClauses ==
    LET g == AsSeq(Rec.g) m == AsSeq(Rec.m) pts == Seq2(Rec.pts) vals == AsSeq(Rec.vals)
        res == [err |-> Rec.err, data |-> Seq2(Rec.out)]
        S == ToGridOp(pts, vals, g, m)
-   IN [ equals_spec      |-> S.err = res.err /\ SameAvg(S.data, res.data),
+   IN [ equals_spec      |-> S.err = res.err /\ (Rec.raised \/ SameAvg(S.data, res.data)),
         missing_is_error |-> MissingIsError(pts, g, m, res),
-        own_values       |-> Complete(pts, g, m) =>
-                                /\ res.err = "" /\ Len(res.data) = NPoints(g)
+        empty_slots      |-> ~Rec.raised => Len(res.data) = NPoints(g) /\ EmptySlotsAreMissing(pts, g, m, res),
+        own_values       |-> ~Rec.raised =>
+                                /\ Len(res.data) = NPoints(g)
                                 /\ \A s \in 0..(NPoints(g) - 1) :
                                       LET im == ImagesOf(pts, Unflatten(s, g), g, m)
-                                      IN res.data[s + 1][1] * Cardinality(im) = SumSetOf(vals, im) * res.data[s + 1][2],
-        c_order          |-> res.err = "" => Seq2(Rec.knew) = COrder(g) /\ AsSeq(Rec.shape) = g,
+                                      IN im # {} => res.data[s + 1][1] * Cardinality(im) = SumSetOf(vals, im) * res.data[s + 1][2],
+        c_order          |-> ~Rec.raised => Seq2(Rec.knew) = COrder(g) /\ AsSeq(Rec.shape) = g,
         bijection        |-> SlotBijection(g) ]
+(* find_grid: C30 needs that the grid is recovered from a point set that has every plane of the grid and only grid
+   points.  Its value on other point sets (missing planes, off-grid points) is a heuristic: information only. *)
 FindGridClauses ==
    LET g == AsSeq(Rec.g) m == AsSeq(Rec.m) pts == Seq2(Rec.pts) M == Mesh(g, m)
-   IN [ in_domain   |-> ~FindGridTie(pts, M),
-        equals_spec |-> AsSeq(Rec.out) = FindGrid(pts, M),
-        recovers    |-> AllPlanes(pts, g, m) /\ AllOnGrid(pts, m) => AsSeq(Rec.out) = g ]
+   IN [ in_domain        |-> ~FindGridTie(pts, M),
+        recovers         |-> AllPlanes(pts, g, m) /\ AllOnGrid(pts, m) => AsSeq(Rec.out) = g,
+        info_equals_spec |-> AsSeq(Rec.out) = FindGrid(pts, M) ]
+(* K__Result.get_component_list of the real class: the list of components of a tensor of rank ndim *)
+CompListClauses ==
+   LET got == {[kind |-> Rec.out[k].kind, c |-> AsSeq(Rec.out[k].c)] : k \in 1..Len(Rec.out)}
+   IN [ equals_spec   |-> got = ComponentList(Rec.ndim),
+        no_duplicates |-> Len(Rec.out) = Cardinality(got) ]
 ComponentClauses ==
    LET T == Tensor(Rec.T, Rec.ndim) comp == [kind |-> Rec.kind, c |-> AsSeq(Rec.c)] out == [tag |-> Rec.tag, v |-> Rec.v]
    IN [ in_domain   |-> CompOK(Rec.ndim, comp),
@@ -38,6 +50,7 @@ ComponentClauses ==
 Clauses == CASE Rec.fn = "to_grid" -> ToGridClauses
              [] Rec.fn = "find_grid" -> FindGridClauses
              [] Rec.fn = "component" -> ComponentClauses
+             [] Rec.fn = "complist" -> CompListClauses
 Report == \A n \in DOMAIN Clauses : Clauses[n] \/ PrintT(<<"BAD", i, n>>)
 RecInit == i \in 1..Len(Recs)
 RecSpec == RecInit /\ [][UNCHANGED i]_i
